@@ -1,6 +1,7 @@
 SPECIFICATION MCSpec
 CONSTANTS AggReplace = TRUE
  AggKeepFirst = FALSE
+ EarlyAdd = FALSE
  MCKinds = {"agg"}
  MaxStores = 2
  MaxQ = 2
